@@ -349,6 +349,9 @@ func cmdCheck(args []string) int {
 		}
 	}
 	repDir := filepath.Join(vd, "replays", *prop)
+	if *noEvidence {
+		repDir = filepath.Join(os.TempDir(), "vcgo-scratch-replays", *prop)
+	}
 	for _, o := range failed {
 		if o.Result == "error" {
 			continue
